@@ -298,7 +298,7 @@ func (c *Ctx) judgeSuccess(h *History, o *Obs, g *GenSpec, add func(o *Obs, clas
 }
 
 var faultKinds = []string{"err", "create-then-err", "short", "partial-mkdir", "write-enospc", "crash-before", "crash-after", "crash-torn"}
-var stages = []string{"directive", "methoddirective", "signature", "conversion", "marker", "load", "render", "syntax", "generic", "errorfield"}
+var stages = []string{"directive", "methoddirective", "signature", "conversion", "marker", "load", "render", "syntax", "generic", "errorfield", "extendlist"}
 
 // stageFor maps a stage onto one that exists for the converter: an empty variables block has
 // no function a signature-, method- or conversion-stage defect could sit on.
